@@ -1,7 +1,8 @@
 (* Model/C02Check.v — compares the heap/variable snapshots of the implementation after every
    step of a program with the FormulaMachine model. *)
 From Coq Require Import ZArith QArith Qabs String List Bool.
-From PT Require Import Str Dec Py Loaders Formula FormulaMachine AtomEnv.
+From PT Require Import Str Dec Py Loaders Formula FormulaMachine AtomEnv Printer.
+From PT.Gen Require Import ElementBase.
 Import ListNotations.
 Open Scope Q_scope.
 
@@ -9,8 +10,12 @@ Open Scope Q_scope.
 Record vobs := mkV {
   o_var : nat; o_class : nat; o_struct : struct; o_list : bool;
   o_density : pyval; o_name : option string; o_mass : pyval; o_charge : pyval;
-  o_fracsum : pyval
+  o_fracsum : pyval;
+  o_str : string;               (* str(f), read after every step (so any cache is exercised) *)
+  o_hill : struct               (* f.hill.structure *)
 }.
+
+Definition penv0 : penv := mkPenv (sym_of element_base).
 
 Fixpoint frag_close (x y : frag) : bool :=
   match x, y with
@@ -56,6 +61,9 @@ Definition check_var (E : aenv) (exact : bool) (s : state) (o : vobs) : bool :=
           && chk_scaled (o_mass o) (f_mass E f) (f_mass E f)
           && chk_scaled (o_charge o) (f_charge f) (abs_charge (f_atoms f))
           && (match o_fracsum o with PNone => Qeq_bool (f_mass E f) 0 | v => chk_scaled v 1 1 end)
+          && (if exact then String.eqb (str_formula penv0 f) (o_str o) else true)
+          && (if exact then struct_eqb (f_struct (f_hill E f)) (o_hill o)
+              else frag_close (FGroup (f_struct (f_hill E f))) (FGroup (o_hill o)))
       | None => false
       end
   | None => false
